@@ -3,7 +3,7 @@
 From Coq Require Import List NArith Bool Arith Lia.
 From SWH.lib Require Import Bytes.
 From SWH.model Require Import Merkle.
-From SWH.proofs Require Import MerkleBase MerkleInv MerkleHash MerkleMut MerkleCollect.
+From SWH.proofs Require Import MerkleBase MerkleAcyclic MerkleInv MerkleHash MerkleMut MerkleCollect.
 Import ListNotations.
 Local Open Scope nat_scope.
 
@@ -108,7 +108,7 @@ Lemma hash_op_ok : forall force n s, InvA s -> n < length s ->
   exists s' h, update_hash NH false (S (length s)) force n s = Ok (s', h) /\ Inv s' /\ shape s s' /\ keepc s s' /\
     (force = false -> grows s s') /\ Fresh s' n h /\ Fresh s n h.
 Proof.
-  intros force n s [[I I4] [rank Rk]] L.
+  intros force n s [[I I4] Ac] L. destruct (acyclic_bounded s Ac) as [rank Rk].
   assert (G : exists s' h, update_hash NH false (S (length s)) force n s = Ok (s', h) /\ Inv0 s' /\ shape s s' /\
               (force = false -> grows s s') /\ hashed_val s' n h /\ (I4s s -> I4s s' /\ keepc s s')).
   { apply (update_hash_ok NH rank (S (length s)) force n s I Rk L).
@@ -123,7 +123,7 @@ Lemma step_ok : forall s o, InvA s -> guard NH true false s o ->
   Inv (fst (step NH true false s o)) /\
   match o with OCollect _ => True | _ => K0 s (fst (step NH true false s o)) end.
 Proof.
-  intros s o IA [_ G]. pose proof IA as [I [rank Rk]].
+  intros s o IA [_ G]. pose proof IA as [I Ac]. destruct (acyclic_bounded s Ac) as [rank Rk].
   assert (TRIV : Inv s /\ K0 s s) by (split; [auto | apply K0_refl]).
   destruct o as [k d|p key c|p key|p l|p key|p key|n|n|n|n|n|n]; unfold step.
   - (* new *) simpl. split; [apply Inv_new; auto|].
@@ -176,9 +176,8 @@ Qed.
 
 Lemma InvA_init : InvA [].
 Proof.
-  split; [apply Inv_init|]. exists (fun _ => 0). split.
-  - intros n m (x & nm & E & _). destruct n; discriminate.
-  - intro. simpl. lia.
+  split; [apply Inv_init|]. exists (fun _ => 0).
+  intros n m (x & nm & E & _). destruct n; discriminate.
 Qed.
 
 Lemma final_app : forall s h o, final NH true false s (h ++ [o]) = fst (step NH true false (final NH true false s h) o).
@@ -208,7 +207,7 @@ Lemma no_stale : forall h o, guarded NH true false [] h -> guard NH true false (
      exists x, nth_error s n = Some x /\ FreshKids s' (kids x) es).
 Proof.
   intros h o GH GO s s'. pose proof (reachable_inv h [] InvA_init GH) as IA. fold s in IA.
-  pose proof IA as [I [rank Rk]].
+  pose proof IA as [I Ac]. destruct (acyclic_bounded s Ac) as [rank Rk].
   split.
   - intros n L [-> | ->]; simpl.
     + destruct (hash_op_ok false n s IA L) as (s2 & h2 & E2 & _ & _ & _ & _ & F2 & F1).
@@ -261,7 +260,7 @@ Lemma collect_step : forall s root, InvA s -> root < length s ->
   exists s' L, step NH true false s (OCollect root) = (s', OutNodes L) /\ Inv s' /\ cgrow s s' /\
     (forall m, Reach s root m -> collected_at s' m) /\ flipped s s' L.
 Proof.
-  intros s root [I [rank Rk]] L.
+  intros s root [I Ac] L. destruct (acyclic_bounded s Ac) as [rank Rk].
   destruct (collect_ok NH rank (S (length s)) root s I Rk L) as (s' & Lc & E & R).
   { destruct Rk as [_ B]. specialize (B root). lia. }
   exists s', Lc. unfold step. rewrite E. simpl. auto.
@@ -341,7 +340,7 @@ Proof.
   intros s rep root GR G L s'. pose proof (greach_inv s rep GR) as [IA _].
   destruct (collect_step s root IA L) as (s2 & Lc & E & Is2 & CG & CA & _).
   assert (Es : s' = s2) by (unfold s'; rewrite E; reflexivity). rewrite Es.
-  pose proof (cgrow_shape _ _ CG) as Sh. destruct IA as [I [rank Rk]].
+  pose proof (cgrow_shape _ _ CG) as Sh. destruct IA as [I Ac]. destruct (acyclic_bounded s Ac) as [rank Rk].
   assert (NOOP : collect NH false (S (length s2)) root s2 = Ok (s2, [])).
   { apply (collect_noop NH rank).
     - intros m x nm c. apply (I_wfk NH s2 (proj1 Is2)).
@@ -360,7 +359,7 @@ Lemma reset_then_collect : forall s rep root, greach s rep -> guard NH true fals
 Proof.
   intros s rep root GR G L s1. pose proof (greach_inv s rep GR) as [IA _].
   pose proof (step_inv s (OReset root) IA G) as IA1. fold s1 in IA1.
-  destruct IA as [I [rank Rk]].
+  destruct IA as [I Ac]. destruct (acyclic_bounded s Ac) as [rank Rk].
   destruct (reset_ok rank (S (length s)) root s) as (s2 & E & N & U); auto.
   { intros m x nm c. apply (I_wfk NH s (proj1 I)). }
   { destruct Rk as [_ B]. specialize (B root). lia. }
